@@ -14,12 +14,21 @@ package auth
 //      formatting (negative, k leading zero nibbles, carry depth of the negation) must all be hit.
 
 import (
+	"bytes"
+	"context"
+	"crypto/rand"
+	"crypto/rsa"
 	"crypto/sha1"
 	"crypto/x509"
 	"encoding/hex"
+	"errors"
 	"fmt"
+	"io"
 	"math/big"
+	"net/http"
+	"net/url"
 	"strings"
+	"sync"
 	"testing"
 
 	"go.minekube.com/gate/pkg/edition/java/proxy/zzverif/vrt"
@@ -52,10 +61,224 @@ func refTwos(p []byte) []byte {
 }
 
 type c09Replay struct {
-	Kind   string `json:"kind"` // "id" or "twos"
+	Kind   string `json:"kind"` // "id", "twos", "wire" or "concurrent"
 	Secret string `json:"secret,omitempty"`
 	Key    string `json:"key,omitempty"`
 	Input  string `json:"input,omitempty"`
+	URLFn  string `json:"urlfn,omitempty"` // wire: default | custom | custom-query | reset
+	IP     string `json:"ip,omitempty"`
+}
+
+// ---- C: the id as it is SENT to the session server (hasJoined request) ----
+
+// captureRT is the scripted session server: it records the raw request URL, nothing leaves the process.
+type captureRT struct{ urls []string }
+
+func (c *captureRT) RoundTrip(req *http.Request) (*http.Response, error) {
+	c.urls = append(c.urls, req.URL.String())
+	return &http.Response{StatusCode: 204, Status: "204", Proto: "HTTP/1.1", ProtoMajor: 1, ProtoMinor: 1,
+		Header: http.Header{}, Body: io.NopCloser(strings.NewReader("")), Request: req}, nil
+}
+
+// refQueryParam is an independent application/x-www-form-urlencoded reader (what the session
+// server does with the query string): split on '&' and '=', '+' is a space, %XX is a byte.
+func refQueryParam(rawURL, name string) ([]string, error) {
+	i := strings.IndexByte(rawURL, '?')
+	if i < 0 {
+		return nil, nil
+	}
+	q := rawURL[i+1:]
+	if j := strings.IndexByte(q, '#'); j >= 0 {
+		q = q[:j]
+	}
+	dec := func(s string) (string, error) {
+		var b []byte
+		for k := 0; k < len(s); k++ {
+			switch {
+			case s[k] == '+':
+				b = append(b, ' ')
+			case s[k] == '%':
+				if k+2 >= len(s) {
+					return "", errors.New("truncated escape")
+				}
+				v, err := hex.DecodeString(s[k+1 : k+3])
+				if err != nil {
+					return "", err
+				}
+				b = append(b, v[0])
+				k += 2
+			default:
+				b = append(b, s[k])
+			}
+		}
+		return string(b), nil
+	}
+	var out []string
+	for _, kv := range strings.Split(q, "&") {
+		k, v, _ := strings.Cut(kv, "=")
+		dk, err := dec(k)
+		if err != nil {
+			return nil, err
+		}
+		if dk != name {
+			continue
+		}
+		dv, err := dec(v)
+		if err != nil {
+			return nil, err
+		}
+		out = append(out, dv)
+	}
+	return out, nil
+}
+
+var wireURLFns = []string{"default", "custom", "custom-query", "reset"} // + "generated": default URL, key generated by New
+
+// newWireAuth builds the REAL authenticator through auth.New over the scripted session server.
+func newWireAuth(priv *rsa.PrivateKey, urlfn string, rt *captureRT) (Authenticator, error) {
+	o := Options{PrivateKey: priv, Client: &http.Client{Transport: rt}}
+	if urlfn == "generated" {
+		o.PrivateKey = nil
+	}
+	switch urlfn {
+	case "custom", "reset":
+		u, _ := url.Parse("http://session.invalid/session/minecraft/hasJoined")
+		o.HasJoinedURLFn = CustomHasJoinedURL(u)
+	case "custom-query":
+		u, _ := url.Parse("http://session.invalid/has-joined?tenant=a%26b")
+		o.HasJoinedURLFn = CustomHasJoinedURL(u)
+	}
+	a, err := New(o)
+	if err == nil && urlfn == "reset" {
+		a.SetHasJoinedURLFn(nil) // back to the default Mojang endpoint
+	}
+	return a, err
+}
+
+// checkWire: what a vanilla client does (encrypt the secret with the key the proxy announced), then
+// what the login handler does (DecryptSharedSecret -> GenerateServerID -> AuthenticateJoin), then
+// what the session server sees (serverId parameter of the request).
+func checkWire(r *vrt.R, a Authenticator, rt *captureRT, secret []byte, urlfn, ip string, count bool) {
+	r.Eval(1)
+	pubDER := append([]byte(nil), a.PublicKey()...)
+	rp := c09Replay{Kind: "wire", Secret: hex.EncodeToString(secret), URLFn: urlfn, IP: ip}
+	want, d := refServerID(secret, pubDER)
+	pk, err := x509.ParsePKIXPublicKey(pubDER)
+	if err != nil {
+		r.Violation("wire/public-key-not-pkix", fmt.Sprintf("PublicKey() %x: %v", pubDER, err), rp)
+		return
+	}
+	enc, err := rsa.EncryptPKCS1v15(rand.Reader, pk.(*rsa.PublicKey), secret)
+	if err != nil {
+		panic(err)
+	}
+	var serverID string
+	var resp Response
+	if p, v := vrt.Catch(func() {
+		var dec []byte
+		dec, err = a.DecryptSharedSecret(enc)
+		if err != nil {
+			return
+		}
+		if !bytes.Equal(dec, secret) {
+			err = fmt.Errorf("DecryptSharedSecret returned %x for %x", dec, secret)
+			return
+		}
+		serverID, err = a.GenerateServerID(dec)
+		if err != nil {
+			return
+		}
+		rt.urls = rt.urls[:0]
+		resp, err = a.AuthenticateJoin(context.Background(), serverID, "Notch", ip)
+	}); p {
+		r.Violation("wire/panic", fmt.Sprintf("secret=%x urlfn=%s: %v", secret, urlfn, v), rp)
+		return
+	}
+	if err != nil || resp == nil {
+		r.Violation("wire/login-steps-failed", fmt.Sprintf("secret=%x urlfn=%s: %v", secret, urlfn, err), rp)
+		return
+	}
+	if !bytes.Equal(a.PublicKey(), pubDER) {
+		r.Violation("wire/public-key-changed", fmt.Sprintf("secret=%x: PublicKey() changed from %x to %x", secret, pubDER, a.PublicKey()), rp)
+	}
+	if len(rt.urls) != 1 {
+		r.Violation("wire/request-count", fmt.Sprintf("secret=%x urlfn=%s: %d requests %v", secret, urlfn, len(rt.urls), rt.urls), rp)
+		return
+	}
+	got, perr := refQueryParam(rt.urls[0], "serverId")
+	neg, lz, carry := shape(d)
+	if count {
+		r.Class("wire:urlfn-" + urlfn)
+		if neg {
+			class(r, "wire:negative")
+			if carry > 0 {
+				class(r, "wire:negative-carry")
+			}
+		}
+		if lz > 0 {
+			class(r, "wire:leading-zero")
+		}
+		if neg || lz > 0 {
+			r.Nontrivial(1)
+		}
+	}
+	if perr != nil || len(got) != 1 || got[0] != want {
+		kind := "non-negative"
+		if neg {
+			kind = "negative"
+		}
+		r.Violation("hasJoined-request/"+kind+"-serverId-differs-from-java", fmt.Sprintf("secret=%x sha1=%x urlfn=%s: request %q carries serverId %q (err %v), GenerateServerID returned %q, Java BigInteger(digest).toString(16) = %q", secret, d, urlfn, rt.urls[0], got, perr, serverID, want), rp)
+		return
+	}
+	if u, _ := refQueryParam(rt.urls[0], "username"); len(u) != 1 || u[0] != "Notch" {
+		r.Violation("hasJoined-request/username", fmt.Sprintf("request %q", rt.urls[0]), rp)
+	}
+}
+
+// checkConcurrent: the authenticator is one object shared by all logins. Supplementary (free-running
+// goroutines, not an exhaustive schedule search): every id computed while other goroutines compute
+// theirs on the same authenticator must still be the reference digest.
+func checkConcurrent(r *vrt.R, a Authenticator, key []byte) {
+	const workers, per = 8, 6000
+	type bad struct {
+		secret    []byte
+		got, want string
+	}
+	var mu sync.Mutex
+	var first *bad
+	var wg sync.WaitGroup
+	for w := 0; w < workers; w++ {
+		wg.Add(1)
+		go func(w int) {
+			defer wg.Done()
+			for i := 0; i < per; i++ {
+				s := []byte{byte(w), byte(i >> 8), byte(i), 0x5a, byte(w * 31), 0, 0xff, byte(i * 7), 1, 2, 3, 4, 5, 6, 7, byte(w)}
+				want, _ := refServerID(s, key)
+				var got string
+				var err error
+				if pn, v := vrt.Catch(func() { got, err = a.GenerateServerID(s) }); pn {
+					got, err = "", fmt.Errorf("panic: %v", v)
+				}
+				if err != nil || got != want {
+					if err != nil {
+						got = err.Error()
+					}
+					mu.Lock()
+					if first == nil {
+						first = &bad{append([]byte(nil), s...), got, want}
+					}
+					mu.Unlock()
+					return
+				}
+			}
+		}(w)
+	}
+	wg.Wait()
+	r.Eval(workers * per)
+	r.ClassN("concurrent:ids-on-shared-authenticator", workers*per)
+	if first != nil {
+		r.Violation("GenerateServerID/concurrent-logins-differ-from-java", fmt.Sprintf("%d goroutines on one authenticator: secret=%x got %q want %q (sequentially the same call is checked by part B)", workers, first.secret, first.got, first.want), c09Replay{Kind: "concurrent"})
+	}
 }
 
 func checkTwos(r *vrt.R, in []byte) {
@@ -167,6 +390,17 @@ func TestVerif(t *testing.T) {
 			case "id":
 				k := mustHex(rp.Key)
 				checkID(r, &authenticator{public: k}, mustHex(rp.Secret), k, false)
+			case "wire":
+				rt := &captureRT{}
+				a, err := newWireAuth(priv, rp.URLFn, rt)
+				if err != nil {
+					t.Fatal(err)
+				}
+				checkWire(r, a, rt, mustHex(rp.Secret), rp.URLFn, rp.IP, false)
+			case "concurrent":
+				for i := 0; i < 5 && r.NViolations() == 0; i++ {
+					checkConcurrent(r, realA, realKey)
+				}
 			}
 			return
 		}
@@ -242,6 +476,97 @@ func TestVerif(t *testing.T) {
 			}
 		}
 
+		// ---- B2: secrets of realistic and block-boundary lengths (vanilla sends 16 bytes), long keys ----
+		if r.Mine(2) {
+			longKeys := [][]byte{realKey, nil, bytes.Repeat([]byte{0x30, 0x82, 0x01, 0x22}, 74)[:294], bytes.Repeat([]byte{0xA5}, 550), bytes.Repeat([]byte{0x00, 0xFF, 0x80}, 400)}
+			fills := []func(i, l int) byte{
+				func(i, l int) byte { return 0x00 },
+				func(i, l int) byte { return 0xFF },
+				func(i, l int) byte { return byte(i + 1) },
+				func(i, l int) byte { return byte(0x80 >> uint(i%8)) },
+				func(i, l int) byte { // only the last byte set: a truncated secret looks like the all-zero one
+					if i == l-1 {
+						return 0x01
+					}
+					return 0
+				},
+			}
+			n := 0
+			for _, key := range longKeys {
+				a := &authenticator{public: key}
+				for _, l := range []int{4, 8, 15, 16, 17, 20, 24, 31, 32, 33, 55, 56, 57, 63, 64, 65, 100, 119, 120, 128, 255, 256, 1000, 4096} {
+					for _, f := range fills {
+						sec := make([]byte, l)
+						for i := range sec {
+							sec[i] = f(i, l)
+						}
+						checkID(r, a, sec, key, false)
+						n++
+					}
+				}
+				// every 16-byte secret whose last two bytes vary (the length vanilla uses)
+				for x := 0; x < 65536; x += 1 {
+					sec := []byte{0, 0, 0, 0, 0, 0, 0, 0, 0xC0, 0xFF, 0xEE, 0, 0, 0, byte(x >> 8), byte(x)}
+					checkID(r, a, sec, key, false)
+					n++
+					if len(key) > 200 && x >= 4096 {
+						break
+					}
+				}
+			}
+			r.ClassN("secret-lengths-4..4096-and-16-byte-secrets", n)
+		}
+
+		// ---- C: client encrypts -> DecryptSharedSecret -> GenerateServerID -> AuthenticateJoin -> request URL ----
+		if r.Mine(3) {
+			for _, urlfn := range wireURLFns {
+				rt := &captureRT{}
+				a, err := newWireAuth(priv, urlfn, rt)
+				if err != nil {
+					t.Fatal(err)
+				}
+				nsec := 4096
+				if urlfn != "default" {
+					nsec = 512
+				}
+				for x := 0; x < nsec; x++ {
+					sec := []byte{0, 0x10, 0x20, 0x30, 0x40, 0x50, 0x60, 0x70, 0x80, 0x90, 0xA0, 0xB0, 0xC0, 0xD0, byte(x >> 8), byte(x)}
+					ip := ""
+					if x%2 == 1 {
+						ip = "203.0.113.7"
+					}
+					checkWire(r, a, rt, sec, urlfn, ip, true)
+				}
+				for _, sec := range [][]byte{{0x01}, {0x00, 0x01}, bytes.Repeat([]byte{0}, 16), bytes.Repeat([]byte{0xFF}, 16), bytes.Repeat([]byte{0x7}, 32), bytes.Repeat([]byte{0x9}, 100)} {
+					checkWire(r, a, rt, sec, urlfn, "", false)
+				}
+			}
+			// a key generated by New itself (Options.PrivateKey unset): the digest must be over exactly the bytes PublicKey() announces
+			for i := 0; i < 2; i++ {
+				rt := &captureRT{}
+				a, err := newWireAuth(priv, "generated", rt)
+				if err != nil {
+					t.Fatal(err)
+				}
+				if bytes.Equal(a.PublicKey(), realKey) {
+					t.Fatal("New without a private key returned the fixed test key")
+				}
+				for x := 0; x < 64; x++ {
+					checkWire(r, a, rt, []byte{byte(x), 1, 2, 3, 4, 5, 6, 7, 8, 9, 10, 11, 12, 13, 14, 15}, "generated", "", false)
+				}
+				r.Class("wire:generated-key")
+			}
+			if r.NShards <= 1 {
+				for _, c := range []string{"wire:negative", "wire:negative-carry", "wire:leading-zero"} {
+					if hitClasses[c] == 0 {
+						r.NotExhaustive("digest shape class never produced on the request path: " + c)
+					}
+				}
+			}
+			// ---- D (supplementary): concurrent logins on the shared authenticator ----
+			checkConcurrent(r, realA, realKey)
+		}
+
 		keys := [][]byte{realKey, nil, {0x00}, {0xFF}, []byte("k"), {0x30, 0x81, 0x9f}, []byte(strings.Repeat("\x00", 64)), []byte(strings.Repeat("\xff", 162))}
 		maxLen := 2
 		lenKeys := map[int]int{0: len(keys), 1: len(keys), 2: len(keys)}
@@ -249,7 +574,7 @@ func TestVerif(t *testing.T) {
 			maxLen = 3
 			lenKeys[3] = 2 // all 2^24 three-byte secrets for the real key and the empty key
 		}
-		item := 2
+		item := 4
 		for ki, key := range keys {
 			a := &authenticator{public: key}
 			if ki == 0 {
